@@ -2,8 +2,8 @@
 import itertools
 
 from ..project import AnalysisError, loc
-from ..shape import (AArr, DataDependent, Interp, ShapeError, Unsupported,
-                     bshape)
+from ..shape import (AArr, AScal, DataDependent, Interp, ShapeError,
+                     Unsupported, bshape)
 
 CORE = "geometry_tools/utils/core.py"
 
@@ -565,6 +565,7 @@ HYP_UNITS = {"Point": 1, "IdealPoint": 1, "DualPoint": 1, "Geodesic": 2,
              "TangentVector": 2, "Isometry": 2, "PointPair": 2,
              "Horosphere": 2, "HorosphereArc": 2, "BoundaryArc": 2,
              "Polygon": 2}
+HYP_AUX = {"Segment": 2, "TangentVector": 2}
 AFFINE_MODELS = ("Model.KLEIN", "Model.POINCARE", "Model.HALFSPACE")
 
 
@@ -579,20 +580,25 @@ def _hyp_ctor(it, cls, args, kw):
         raise Unsupported(f"constructor {cls.name} without data")
     a0 = args[0]
     und = HYP_UNITS[cls.name]
-    if isinstance(a0, AObj):
+    if isinstance(a0, AObj) and not (len(args) > 1 and isinstance(
+            args[1], (AArr, AObj))):
         o = a0.clone()
         o.cls = cls
         o.unit_ndims = und
         return o
+    if len(args) > 1 and isinstance(args[1], (AArr, AObj)) and cls.name in (
+            "Geodesic", "Segment", "PointPair", "TangentVector",
+            "Horosphere", "BoundaryArc"):
+        d0 = a0.proj_data if isinstance(a0, AObj) else a0
+        d1 = args[1].proj_data if isinstance(args[1], AObj) else args[1]
+        if not isinstance(d0, AArr) or not isinstance(d1, AArr):
+            raise Unsupported(f"{cls.name}(p1, p2) of {d0!r}, {d1!r}")
+        if d1.shape != d0.shape:
+            raise ShapeError(f"{cls.name}(p1, p2) with shapes {d0.shape} "
+                             f"and {d1.shape}")
+        a0 = AArr(d0.shape[:-1] + (2, d0.shape[-1]))
     if not isinstance(a0, AArr):
         raise Unsupported(f"constructor {cls.name} of {a0!r}")
-    if len(args) > 1 and isinstance(args[1], AArr) and cls.name in (
-            "Geodesic", "Segment", "PointPair", "TangentVector",
-            "Horosphere"):
-        if args[1].shape != a0.shape:
-            raise ShapeError(f"{cls.name}(p1, p2) with shapes {a0.shape} "
-                             f"and {args[1].shape}")
-        a0 = AArr(a0.shape[:-1] + (2, a0.shape[-1]))
     model = kw.get("model", args[1] if len(args) > 1 and isinstance(
         args[1], str) else "Model.PROJECTIVE")
     sh = a0.shape
@@ -601,7 +607,15 @@ def _hyp_ctor(it, cls, args, kw):
     if len(sh) < und:
         raise ShapeError(f"{cls.name} built from an array of shape {sh}: "
                          f"fewer than its {und} unit axes")
-    return AObj(cls, proj=AArr(sh), unit_ndims=und)
+    o = AObj(cls, proj=AArr(sh), unit_ndims=und)
+    aund = HYP_AUX.get(cls.name, 0)
+    if aund:
+        m = it.find_method(o, "_compute_aux_data")
+        if m is None:
+            raise Unsupported(f"{cls.name}._compute_aux_data not found")
+        o.aux_ndims = aund
+        o.aux_data = it.call_node(m, [o, o.proj_data])
+    return o
 
 
 def _sh5_table():
@@ -661,25 +675,43 @@ def _sh5_table():
             t.append((f"HorosphereArc.circle_parameters({m}, degrees={deg})",
                       arc3, "circle_parameters", [],
                       {"model": m, "degrees": deg}, circ))
-            t.append((f"BoundaryArc.circle_parameters({m}, degrees={deg})",
-                      barc3, "circle_parameters", [],
-                      {"model": m, "degrees": deg}, circ))
+            if m == P:
+                t.append((f"BoundaryArc.circle_parameters({m}, "
+                          f"degrees={deg})", barc3, "circle_parameters", [],
+                          {"model": m, "degrees": deg}, circ))
     t.append(("Subspace.boundary_sphere_parameters", sub34,
               "boundary_sphere_parameters", [], {},
               lambda O: (O + (2,), O)))
-    t.append(("Subspace._data_with_dual", sub, "_data_with_dual", [], {},
-              lambda O: O + ("k+1", "n")))
-    t.append(("Subspace.spacelike_complement", sub, "spacelike_complement",
+    sub3 = dict(cls="Subspace", proj=(3, "n"), und=2)
+    t.append(("Subspace._data_with_dual", sub3, "_data_with_dual", [], {},
+              lambda O: O + (4, "n")))
+    t.append(("Subspace.spacelike_complement", sub3, "spacelike_complement",
               [], {}, lambda O: ("obj", O + N)))
     t.append(("TangentVector.normalized", tv, "normalized", [], {},
               lambda O: ("obj", O + (2, "n"))))
     t.append(("TangentVector.angle", tv, "angle", ["@same"], {},
               lambda O: O))
-    t.append(("TangentVector.point_along", tv, "point_along", ["@outer"],
-              {}, lambda O: ("obj", O + N)))
+    tv3 = dict(cls="TangentVector", proj=(2, 3), aux=(2, 3), und=2, aund=2)
+    t.append(("TangentVector.point_along", tv3, "point_along", ["@outer"],
+              {}, lambda O: ("obj", O + (3,))))
+    t.append(("TangentVector.origin_to", tv3, "origin_to", [], {},
+              lambda O: ("obj", O + (3, 3))))
+    pt3 = dict(cls="Point", proj=(3,), und=1)
+    t.append(("Point.origin_to", pt3, "origin_to", [], {},
+              lambda O: ("obj", O + (3, 3))))
     t.append(("Point.unit_tangent_towards", pt, "unit_tangent_towards",
               ["@same"], {}, lambda O: ("obj", O + (2, "n"))))
     return t
+
+
+SH5_C14 = {"Geodesic.circle_parameters", "Segment.circle_parameters",
+           "HorosphereArc.circle_parameters", "BoundaryArc.circle_parameters",
+           "Subspace.sphere_parameters", "Geodesic.sphere_parameters",
+           "Segment.sphere_parameters", "Horosphere.sphere_parameters",
+           "Subspace.boundary_sphere_parameters",
+           "Subspace.ideal_basis_coords", "Segment.endpoint_coords",
+           "Segment.ideal_endpoint_coords", "Horosphere.center_coords",
+           "Horosphere.ref_coords"}
 
 
 def rule_sh5(ctx, only=None):
